@@ -287,8 +287,11 @@ def loopless_fva_iter(
         # the loops
         for rxn in model.reactions:
             rid = rxn.id
-            if (abs(ll_sol[rid]) < zero_cutoff) and (
-                abs(almost_ll_sol[rid]) > zero_cutoff
+            if (
+                (abs(ll_sol[rid]) < zero_cutoff)
+                and (abs(almost_ll_sol[rid]) > zero_cutoff)
+                # a reaction that is forced to carry flux cannot be closed
+                and rxn.lower_bound <= 0 <= rxn.upper_bound
             ):
                 rxn.bounds = max(0, rxn.lower_bound), min(0, rxn.upper_bound)
 
